@@ -9,7 +9,7 @@ from harness import zones as Z
 ID = "C05"
 BACKENDS = ("py", "rs")
 GEN_MODULES = ()
-MIN_THEOREMS = 13
+MIN_THEOREMS = 30
 US = D.US
 DAY = 86400 * US
 YMAX = Z.YMAX_QUICK
@@ -22,11 +22,16 @@ RULE = ("ordered pairs (x, y): for every zone, instants at {-jump-1s, -1us, 0, +
         "tzinfo object, same name but distinct object (Timezone.no_cache), different zones, fixed offsets, naive; paths interval()/"
         "diff()/-/abs()/neg/native operand on either side x absolute flag; naive/UTC/fixed pairs over years 1..9999 with spans "
         "straddling 2^33 s; Date pairs over 1..9999. non-trivial = offsets of the endpoints differ, or a fold=1 endpoint in an "
-        "overlap, or a span >= 2^33 s with a microsecond part")
+        "overlap, or a span >= 2^33 s with a microsecond part. in_days()/in_weeks(): every generated same-tzinfo-object / naive pair "
+        "of the zone stream, every 3rd of the wide stream and every 3rd Date pair is re-run as Interval(x, y, absolute).in_days()/"
+        ".in_weeks() (interval() or diff()); non-trivial = the calendar count differs from the elapsed time truncated to days, "
+        "or a non-zero count with |count| not a multiple of 7")
 EXHAUSTIVE = {"quick": False, "thorough": False}
 TRUSTED = [
     "Model/Interval.lean (Interval.__new__, the DateTime/Date paths into it, in_seconds/minutes/hours) tied by this correspondence run",
     "oracle: integer microsecond difference of the endpoints' instants computed from the extracted tz tables (harness/zones.py)",
+    "Model/Interval.lean inDays/dateInDays/inWeeks (Interval.__init__ swap, precise_diff total_days, in_weeks) tied by the "
+    "`days`/`ddays` ops; oracle: difference of stdlib datetime.date ordinals of the wall dates, weeks = that truncated toward zero",
 ]
 ASSUMPTIONS = [
     "float bridge: Duration(seconds=delta.total_seconds()) is exact for |span| < 2^33 s and for whole-second spans; the model is "
@@ -239,9 +244,33 @@ def _wide_stream(rng, tier):
         yield ("date", rng.choice(("interval", "diff", "sub", "abs", "neg")), a, b, rng.randint(0, 1))
 
 
+def _with_days(stream, every):
+    """pass the stream through unchanged; after every `every`-th eligible op also emit its in_days()/in_weeks() re-run
+    (a pure function of the op and a counter: the random stream of the existing generators is untouched)"""
+    k = 0
+    for op in stream:
+        yield op
+        if op[0] == "iv":
+            _, path, zx, wx, fx, zy, wy, fy, same, ab = op
+            if not same or zx != zy or path in ("subn", "rsubn"):
+                continue          # the model of in_days covers naive pairs and pairs on ONE tzinfo object
+            k += 1
+            if k % every:
+                continue
+            if path not in ("interval", "diff"):
+                ab = (k // every) & 1
+            yield ("days", "diff" if (k // every) % 3 == 0 else "interval", zx, wx, fx, zy, wy, fy, 1, ab)
+        elif op[0] == "date":
+            _, path, a, b, ab = op
+            k += 1
+            if k % every:
+                continue
+            yield ("ddays", "diff" if (k // every) % 3 == 0 else "interval", a, b, ab)
+
+
 def gen_ops(rng, tier):
-    yield from _zone_stream(rng, tier)
-    yield from _wide_stream(rng, tier)
+    yield from _with_days(_zone_stream(rng, tier), 1)
+    yield from _with_days(_wide_stream(rng, tier), 3)
     yield ("mixed", 0)
 
 
@@ -253,6 +282,15 @@ def corpus():
         out.append(("iv", path, paris, w, 0, paris, w, 1, 1, 1 if path != "sub" else 0))
         out.append(("iv", path, paris, w, 1, paris, w, 0, 1, 1 if path != "sub" else 0))
         out.append(("iv", path, paris, w, 1, paris, w, 0, 0, 1 if path != "sub" else 0))
+    # in_days() is a calendar count: 2020-01-01T23:00 -> 2020-01-02T01:00 is 2 h and in_days() == 1
+    a, b = Z.to_us(dt.datetime(2020, 1, 1, 23)), Z.to_us(dt.datetime(2020, 1, 2, 1))
+    for path in ("interval", "diff"):
+        for ab in (0, 1):
+            out.append(("days", path, "n", a, 0, "n", b, 0, 1, ab))
+            out.append(("days", path, "n", b, 0, "n", a, 0, 1, ab))
+            out.append(("days", path, paris, w, 0, paris, w, 1, 1, ab))
+            out.append(("days", path, paris, w - 3 * 3600 * US, 0, paris, w + 14 * DAY, 1, 1, ab))
+            out.append(("ddays", path, 18262, 18262 - 15, ab))
     return out
 
 
@@ -280,6 +318,12 @@ def line(op, backend):
         if path == "abs":
             return "c05date %d %d 1" % (b, a)
         return "c05date %d %d 0" % (a, b)      # neg: -(Date(a) - Date(b)) = Interval(a, b)
+    if op[0] == "days":
+        _, path, zx, wx, fx, zy, wy, fy, same, ab = op
+        return "c05days %s %d %d %s %d %d %d" % (zx, wx, fx, zy, wy, fy, ab)
+    if op[0] == "ddays":
+        _, path, a, b, ab = op
+        return "c05ddays %d %d %d" % (a, b, ab)
     return None
 
 
@@ -364,6 +408,25 @@ def impl(op, backend):
             else:
                 r = -(x - y)
             return _out(r)
+        if op[0] == "days":
+            _, path, zx, wx, fx, zy, wy, fy, same, ab = op
+            x, y = D.mk(zx, wx, fx), D.mk(zy, wy, fy)
+            if x.tzinfo is not y.tzinfo:
+                return "err HarnessSameObject"
+            r = p.interval(x, y, absolute=bool(ab)) if path == "interval" else x.diff(y, bool(ab))
+            d, w = r.in_days(), r.in_weeks()
+            if type(r) is not p.Interval or type(d) is not int or type(w) is not int:
+                return "err WrongType"
+            return "ok %d %d" % (d, w)
+        if op[0] == "ddays":
+            _, path, a, b, ab = op
+            da, db = dt.date.fromordinal(a + 719163), dt.date.fromordinal(b + 719163)
+            x, y = p.Date(da.year, da.month, da.day), p.Date(db.year, db.month, db.day)
+            r = p.interval(x, y, absolute=bool(ab)) if path == "interval" else x.diff(y, bool(ab))
+            d, w = r.in_days(), r.in_weeks()
+            if type(r) is not p.Interval or type(d) is not int or type(w) is not int:
+                return "err WrongType"
+            return "ok %d %d %d" % (d, w, _native_len(r))
         if op[0] == "mixed":
             res = []
             a = p.naive(2020, 1, 1)
@@ -430,6 +493,35 @@ def oracle(op, out, backend):
         if (ln, s, m, h) != (e, trunc_div(e, US), trunc_div(e, 60 * US), trunc_div(e, 3600 * US)):
             return f"date {path}: got {out}, true length {e} us"
         return None
+    if op[0] == "days":
+        _, path, zx, wx, fx, zy, wy, fy, same, ab = op
+        if out == "err OverflowError":       # Interval.__new__'s hand offset removal at the range edges (as for "iv")
+            edge = 2 * DAY
+            if min(wx, wy) < D.MIN_US + edge or max(wx, wy) > D.MAX_US - edge:
+                return None
+        if not out.startswith("ok "):
+            return f"in_days {path}: unexpected {out}"
+        d, w = (int(v) for v in out.split()[1:])
+        # calendar days between the wall dates of the endpoints, from stdlib date ordinals (0 for equal values)
+        e = Z.from_us(wy).date().toordinal() - Z.from_us(wx).date().toordinal()
+        e = abs(e) if ab else e
+        if d != e:
+            return f"in_days {path}: in_days() = {d}, the wall dates of the endpoints are {e} calendar days apart"
+        if w != trunc_div(d, 7):
+            return f"in_days {path}: in_weeks() = {w}, in_days() = {d} truncated toward zero to weeks is {trunc_div(d, 7)}"
+        return None
+    if op[0] == "ddays":
+        _, path, a, b, ab = op
+        if not out.startswith("ok "):
+            return f"date in_days {path}: unexpected {out}"
+        d, w, ln = (int(v) for v in out.split()[1:])
+        e = (b - a) * DAY
+        e = abs(e) if ab else e
+        if ln != e or d * DAY != e:
+            return f"date in_days {path}: in_days() = {d}, length {ln} us, true length {e} us = {e // DAY} days"
+        if w != trunc_div(d, 7):
+            return f"date in_days {path}: in_weeks() = {w}, in_days() = {d} truncated toward zero to weeks is {trunc_div(d, 7)}"
+        return None
     if op[0] == "mixed":
         return None if out == "ok 1 1 1 1 1" else f"naive/aware or date/datetime mix accepted: {out}"
     return None
@@ -437,7 +529,30 @@ def oracle(op, out, backend):
 
 # ------------------------------------------------------------------------------------------------ tags / findings
 
+def _tag_days(op, out):
+    if not out.startswith("ok "):
+        return op[0] + ":error"
+    d = int(out.split()[1])
+    if op[0] == "ddays":
+        return "ddays:zero" if d == 0 else ("ddays:whole-weeks" if d % 7 == 0 else "ddays:partial-week")
+    _, path, zx, wx, fx, zy, wy, fy, same, ab = op
+    kind = "days:naive" if zx == "n" else "days:same-object"
+    el = wy - wx
+    if zx != "n":
+        ux, uy = instant(zx, wx, fx), instant(zy, wy, fy)
+        if ux is None or uy is None:
+            return kind + ":invalid-local"
+        el = uy - ux
+    if d != trunc_div(abs(el) if ab else el, DAY):
+        return kind + ":calendar-differs-from-elapsed"
+    if d == 0:
+        return kind + ":zero"
+    return kind + (":whole-weeks" if d % 7 == 0 else ":partial-week")
+
+
 def tag(op, out):
+    if op[0] in ("days", "ddays"):
+        return _tag_days(op, out)
     if op[0] != "iv":
         return op[0]
     _, path, zx, wx, fx, zy, wy, fy, same, ab = op
@@ -462,7 +577,9 @@ def tag(op, out):
     return kind + ":plain"
 
 
-TRIVIAL_TAGS = ("same-object:plain", "same-name:plain", "different-zones:plain", "naive:plain", "date", "mixed", "invalid-local")
+TRIVIAL_TAGS = ("same-object:plain", "same-name:plain", "different-zones:plain", "naive:plain", "date", "mixed", "invalid-local",
+                "days:naive:zero", "days:same-object:zero", "days:naive:whole-weeks", "days:same-object:whole-weeks",
+                "days:same-object:invalid-local", "ddays:zero", "ddays:whole-weeks")
 
 
 def _wall_order(op, backend, out, viol):
